@@ -12,7 +12,7 @@ Stages:
   6. self-test: a perturbed logged result must be rejected
 The python side only projects (value model -> source text, printed text -> value model); it computes no expected value.
 """
-import json, os, re, random
+import json, os, re, random, time
 import vf
 
 PROP = "C11"
@@ -50,8 +50,8 @@ def lit(v):
     t = v["t"]
     if t == "s":
         return str_lit(v["v"])
-    if t == "i":
-        return int_lit(v)
+    if t == "i":        # ego types an integer literal beyond int32 as int64 (a literal-typing matter, C06): say int(..)
+        return int_lit(v) if abs(int(int_text(v))) < 2 ** 31 else "int(%s)" % int_lit(v)
     if t in ("i64", "r", "f"):      # typed: ego's strict mode does not convert untyped constants (legal Go either way)
         return "%s(%s)" % (GO_TYPE[t], int_lit(v))
     if t == "by":
@@ -151,7 +151,7 @@ def case_body(c, lang):
     if sh == "sl":
         a = "s%d" % cid
         st.append("%s := %s" % (a, exprs[0]))
-        st.append("%s(%s, func(i, j int) bool { return %s[i]/10 < %s[j]/10 })" % (fn, a, a, a))
+        st.append("%s(%s, func(i, j int) bool { return %s[i]/100 < %s[j]/100 })" % (fn, a, a, a))
         return st + print_stmts(cid, ret, [a], lang)
     if sh == "se":
         st.append("%s := sort.Search(%s, func(i int) bool { return i >= %s })" % (rn[0], exprs[0], exprs[1]))
@@ -459,6 +459,26 @@ def describe(c, out):
         c["fn"], a, c["ctx"]["arg"], c["ctx"]["res"], c["ctx"]["mode"], c["ctx"]["opt"], o)
 
 
+def run_replay(chk, sd, path):
+    """re-run one recorded case (replays/C11-*.json) through the real binary and the contract"""
+    c = json.load(open(path))["replay"]["case"]
+    ego = vf.build_ego(sd, vf.make_overlay(sd, []))
+    out, info, nprog = run_ego(sd, ego, [c], 1, "replay")
+    recs = io_records([c], out, "ego")
+    if c["go"]:
+        gcs, gout = run_go(sd, [c], 1)
+        recs += io_records(gcs, gout, "go")
+    bad = judge(chk, sd, recs, "contract over the replayed call")
+    if bad.get("go"):
+        raise vf.NoVerdict("the specification disagrees with the Go toolchain on the replayed call")
+    chk.cov["evaluations"] = 1
+    chk.sample({"kind": "replayed call", "rec": recs[0]})
+    for b in bad.get("ego", []):
+        chk.violation(b["key"], describe(c, out[c["id"]]), {"case": c, "ego_out": out[c["id"]], "ego_source": ego_program([c]),
+                                                           "abort_info": info.get(c["id"])})
+    return chk.finish()
+
+
 def run():
     thorough = vf.TIER == "thorough"
     chk = vf.Check(PROP)
@@ -471,11 +491,19 @@ def run():
         "the reference semantics in RFCore.tla is cross-checked against the Go toolchain on every generated call that is legal Go; "
         "ego-only functions (strconv.Itor/Rtoi, math.Sum, strings.Split with one argument, sort.Sort/Stable on arrays) rest on the spec alone",
         "cases are sampled by TLC (-seed = VERIF_SEED) from the parameter domains when the domains exceed the per-tier sample size"]
+    replay = os.environ.get("VERIF_REPLAY")
+    t0 = time.time()
+
+    def stage(msg):
+        vf.log("C11 %-34s t=%.0fs" % (msg, time.time() - t0))
     with vf.scratch() as sd:
+        if replay:
+            return run_replay(chk, sd, replay)
         # 1. the reference semantics satisfies the documented laws (model level, exhaustive at the bound)
         r = vf.tlc_ok(vf.tlc(SPEC, "RuntimeFuncs_MC", "RuntimeFuncs_MC.cfg" if thorough else "RuntimeFuncs_MCq.cfg", sd,
                              timeout=1200), "RuntimeFuncs laws")
         chk.add_tlc(r, "MC laws (round trips, sort contracts, algebraic identities)")
+        stage("laws checked: %d instances" % r.distinct)
         # 2. cases
         g = vf.tlc(SPEC, "RuntimeFuncs_Gen", "RuntimeFuncs_GenT.cfg" if thorough else "RuntimeFuncs_Gen.cfg", sd,
                    workers=1, seed=vf.SEED, timeout=1200, keep_stdout=False)
@@ -487,6 +515,7 @@ def run():
         if len(cases) < 1000:
             raise vf.NoVerdict("generator produced only %d cases" % len(cases))
         fns = sorted({c["fn"] for c in cases})
+        stage("generated %d calls of %d functions" % (len(cases), len(fns)))
         # 3. run on the real ego binary
         ov = vf.make_overlay(sd, [])
         ego = vf.build_ego(sd, ov)
@@ -497,6 +526,7 @@ def run():
             out, info, nprog = run_ego(sd, ego, cases, 250 if thorough else 120, "main")
             gcs, gout = gofut.result()
         recs = io_records(cases, out, "ego")
+        stage("ran %d ego programs, %d go-legal calls" % (nprog, len(gcs)))
         grecs = io_records(gcs, gout, "go")
         # 5. binding self-test input: results of the Go toolchain, perturbed (they must be rejected)
         rng = random.Random(vf.SEED)
@@ -507,6 +537,7 @@ def run():
         pert = perturb(cand, rng, 20)
         # 6. judge: one TLC run of the contract over ego calls, Go calls and perturbed calls
         bad = judge(chk, sd, recs + grecs + pert, "contract over logged calls (ego, go cross-check, self-test)")
+        stage("contract evaluated")
         byid = {c["id"]: c for c in cases}
         if bad.get("go"):
             ex = [describe(byid[b["id"]], gout[b["id"]]).replace("ego:", "go:") + " key=" + b["key"] for b in bad["go"][:8]]
